@@ -79,3 +79,106 @@ def when_changed(model, info, art):
     ok = (o.expected_value == exp and type(o.expected_value) is type(exp)) and got_s == (v != o.expected_value) and got_r == (allow and v == o.expected_value)
     return ("contradicted" if ok else "confirmed"), (f"SuspendWhenChanged(signal.value={sv!r}, expected_value={ev!r}) stores expected_value="
                                                       f"{o.expected_value!r} (documented {exp!r}); value={v!r}: suspend={got_s} resume={got_r}")
+
+
+# ------------------------------------------------------------------------------------------------ C31
+class _Sig:
+    name = "sig"
+    value = 0
+
+    def __init__(self):
+        self.calls = []
+
+    def subscribe(self, cb, event_type=None, run=True):
+        self.calls.append(("subscribe", cb, run))
+
+    def clear_sub(self, cb):
+        self.calls.append(("clear_sub", cb))
+
+
+def _engine():
+    from bluesky import RunEngine
+    return RunEngine({}, context_managers=[])
+
+
+def remove(model, info, art):
+    """C31 R1 / R2 on a real SuspendBoolHigh attached to a real RunEngine"""
+    import time
+    from bluesky.suspenders import SuspendBoolHigh
+    RE = _engine()
+    sig = _Sig()
+    s = SuspendBoolHigh(sig, sleep=0)
+    installed, has_ev = bool(info.get("installed", True)), bool(info.get("has_ev", True))
+    ev = None
+    if installed:
+        s.install(RE)
+        if has_ev:
+            s(1)                       # trips: makes the event (the engine is idle, so no suspension is requested)
+            ev = s._ev
+    del sig.calls[:]
+    bad = []
+    try:
+        s.remove()
+    except Exception as e:   # noqa
+        bad.append(f"remove() raised {e!r}")
+    if [c[0] for c in sig.calls] != ["clear_sub"]:
+        bad.append(f"signal calls during remove: {[c[0] for c in sig.calls]}")
+    if s.RE is not None or s._ev is not None or s.tripped:
+        bad.append(f"after remove: RE={s.RE!r} _ev={s._ev!r} tripped={s.tripped}")
+    if ev is not None:
+        t0 = time.time()
+        while not ev.is_set() and time.time() - t0 < 3:
+            time.sleep(0.02)
+        if not ev.is_set():
+            bad.append("the event the suspender held was never released")
+    try:
+        s.remove()
+    except Exception as e:   # noqa
+        bad.append(f"second remove() raised {e!r}")
+    s(1)
+    if s.tripped or s._ev is not None:
+        bad.append("the removed suspender reacted to a signal change")
+    return ("confirmed" if bad else "contradicted"), "; ".join(bad) or "remove: unsubscribed, released, harmless twice, no reaction afterwards"
+
+
+def get_futures(model, info, art):
+    from bluesky.suspenders import SuspendBoolHigh
+    RE = _engine()
+    sig = _Sig()
+    s = SuspendBoolHigh(sig, sleep=0, tripped_message="beam dump")
+    s.install(RE)
+    bad = []
+    if s.get_futures() != ([], ""):
+        bad.append(f"untripped get_futures() = {s.get_futures()!r}")
+    s(1)
+    futs, just = s.get_futures()
+    if not (len(futs) == 1 and getattr(futs[0], "__self__", None) is s._ev and futs[0].__name__ == "wait" and "beam dump" in just):
+        bad.append(f"tripped get_futures() = {futs!r}, {just!r}")
+    return ("confirmed" if bad else "contradicted"), "; ".join(bad) or "get_futures as specified"
+
+
+def engine_remove(model, info, art):
+    RE = _engine()
+    calls = []
+
+    class S:
+        def install(self, re_):
+            calls.append(("install", re_))
+
+        def remove(self):
+            calls.append(("remove",))
+    s = S()
+    bad = []
+    if info.get("start") == "installed":
+        RE.install_suspender(s)
+    del calls[:]
+    RE.remove_suspender(s)
+    RE.remove_suspender(s)
+    want = 1 if info.get("start") == "installed" else 0
+    if len([c for c in calls if c[0] == "remove"]) != want or s in RE.suspenders:
+        bad.append(f"remove_suspender twice gave calls {calls} (start: {info.get('start')})")
+    del calls[:]
+    RE.install_suspender(s)
+    if calls != [("install", RE)] or s not in RE.suspenders:
+        bad.append(f"install_suspender gave calls {calls}")
+    return ("confirmed" if bad else "contradicted"), "; ".join(bad) or "install / remove on the engine as specified"
